@@ -23,7 +23,7 @@ from hypothesis import strategies as st
 
 from .. import ast as A
 from ..runner import Outcome, fail
-from ..world import build_entities, Ent, Other, p_a_ge, CLASSES, FAULT, InjectedFault
+from ..world import build_entities, Ent, Other, p_a_ge, p_echo, CLASSES, FAULT, InjectedFault
 from ..build import build_query
 from ..qcheck import satisfying
 
@@ -117,6 +117,18 @@ def _probe(model_mode, probe_var):
     else:
         if r is not True:
             return f"outside every block the @predicate function returned {r!r} instead of True"
+    # 2b. ... also when an argument happens to be an expression object (a variable declared earlier, a query): outside
+    # every block the call is ordinary Python, the body runs with exactly these arguments
+    for args, kwargs in (((probe_var,), {}), ((1,), {"w": probe_var}), ((_probe.query,), {})):
+        r = p_echo(*args, **kwargs)
+        if inside:
+            if not isinstance(r, SymbolicExpression):
+                return f"inside a block p_echo(<expression>) returned the Python value {r!r}"
+        else:
+            want = ("ran", args[0], kwargs.get("w"))
+            if not (isinstance(r, tuple) and len(r) == 3 and r[0] == "ran" and r[1] is want[1] and r[2] is want[2]):
+                return (f"outside every block the @predicate function called with an expression object as an argument "
+                        f"did not run as ordinary Python: returned {type(r).__name__}")
     # 3. symbolic operators on a variable
     ops = {"x.a": lambda x: x.a, "x[0]": lambda x: x[0], "x()": lambda x: x(), "x == 1": lambda x: x == 1,
            "x != 1": lambda x: x != 1, "x < 1": lambda x: x < 1, "x <= 1": lambda x: x <= 1, "x > 1": lambda x: x > 1,
@@ -146,6 +158,7 @@ def check(case) -> Outcome:
     the_queries = {name: build_query(_case_for(cond), objs, quant="the").q for name, cond in THE.items()}
     FAULT.update(armed=False, calls=0, at=0)
     probe_var = let(Ent, domain=[objs[0]])
+    _probe.query = queries[0]
     frames = []          # model: dicts(kind, cm, mode, ctx(bool), top)
     iters = []           # dicts(gen, qi, pos, epoch_created, alive)
     epoch = 0            # incremented at every block entry / exit
